@@ -216,6 +216,33 @@ func runCheck(o *checkOpts) int {
 				genFails = append(genFails, genFail{r.Pkg + "." + r.Unit, r.Err})
 			}
 		}
+		// pure lemmas
+		var lpaths []string
+		for path := range prog.Contracts {
+			lpaths = append(lpaths, path)
+		}
+		sort.Strings(lpaths)
+		for _, path := range lpaths {
+			for _, lm := range prog.Contracts[path].Lemmas {
+				tagged := o.prop == "" || hasTag(lm.Tags, o.prop)
+				for _, en := range lm.Ensures {
+					if hasTag(en.Tags, o.prop) {
+						tagged = true
+					}
+				}
+				if !tagged && !o.all {
+					continue
+				}
+				if o.unit != "" && !strings.Contains("lemma."+lm.Name, o.unit) {
+					continue
+				}
+				r := VerifyLemma(prog, path, lm)
+				results = append(results, r)
+				if r.Err != "" {
+					genFails = append(genFails, genFail{r.Pkg + "." + r.Unit, r.Err})
+				}
+			}
+		}
 		// contracts that name functions which no longer exist
 		for path, cs := range prog.Contracts {
 			for name, c := range cs.Funcs {
